@@ -36,10 +36,11 @@ const (
 
 // Round is one acquire attempt of a worker; when it succeeds the worker's next command is Unlock.
 type Round struct {
-	Kind    int  `json:"kind"`
-	Pre     bool `json:"pre,omitempty"`      // the context is cancelled before the call (TryLock / LockWithCtx)
-	GateErr bool `json:"gate_err,omitempty"` // the first ctx.Err() call that reports the cancellation parks at the scheduler (a schedule point between an attempt's decision to give up and its clean-up)
-	Cause   bool `json:"cause,omitempty"`    // the context is a WithCancelCause context and is cancelled with a cause of the harness (ctx.Err() is still context.Canceled)
+	Kind     int  `json:"kind"`
+	Pre      bool `json:"pre,omitempty"`       // the context is cancelled before the call (TryLock / LockWithCtx)
+	GateDone bool `json:"gate_done,omitempty"` // the first ctx.Done() call of the lock code (entry of the local wait) parks at the scheduler
+	GateErr  bool `json:"gate_err,omitempty"`  // the first ctx.Err() call that reports the cancellation parks at the scheduler (a schedule point between an attempt's decision to give up and its clean-up)
+	Cause    bool `json:"cause,omitempty"`     // the context is a WithCancelCause context and is cancelled with a cause of the harness (ctx.Err() is still context.Canceled)
 }
 
 // LockerCfg is one Locker object: which provider made it, for which lock name.
@@ -123,17 +124,39 @@ var errHarnessCause = errors.New("the harness had its reasons")
 // errGateCtx parks its first Err() call that reports the end of the context at the scheduler.
 type errGateCtx struct {
 	context.Context
-	g    *gated.Storage
-	once atomic.Bool
+	g        *gated.Storage
+	once     atomic.Bool
+	gateDone bool // also park the first Done() call the lock code makes (the entry of its local wait)
+	doneOnce atomic.Bool
+}
+
+func (c *errGateCtx) Done() <-chan struct{} {
+	if c.gateDone && calledFromLockCode() && c.doneOnce.CompareAndSwap(false, true) {
+		c.g.Park("ctxdone", "")
+	}
+	return c.Context.Done()
 }
 
 // calledFromLockCode: the Err() call comes from the lock package itself (storage backends also poll Err(), some of
 // them with their mutex held - no schedule point there).
 func calledFromLockCode() bool {
-	var pcs [4]uintptr
-	n := runtime.Callers(3, pcs[:])
-	fr, _ := runtime.CallersFrames(pcs[:n]).Next()
-	return strings.Contains(fr.Function, "/kvs/distlock.")
+	var pcs [8]uintptr
+	n := runtime.Callers(2, pcs[:])
+	frames := runtime.CallersFrames(pcs[:n])
+	for {
+		fr, more := frames.Next()
+		switch {
+		case strings.Contains(fr.Function, "verifharness/"), fr.Function == "":
+			// the context wrapper's own methods
+		case strings.Contains(fr.Function, "/kvs/distlock."):
+			return true
+		default:
+			return false // a storage backend, the context package, ...
+		}
+		if !more {
+			return false
+		}
+	}
 }
 
 func (c *errGateCtx) Err() error {
@@ -413,9 +436,12 @@ func (e *eng) apply(mv move) {
 					ctx, cancel = cctx, func() { ccancel(errHarnessCause) }
 					e.info.class("context_with_cause")
 				}
-				if r.GateErr && !r.Pre {
-					ctx = &errGateCtx{Context: ctx, g: e.g}
-					e.info.class("context_err_gated")
+				if (r.GateErr || r.GateDone) && !r.Pre {
+					ctx = &errGateCtx{Context: ctx, g: e.g, gateDone: r.GateDone}
+					if !r.GateErr {
+						ctx.(*errGateCtx).once.Store(true) // only the Done() gate
+					}
+					e.info.class("context_gated")
 				}
 				c.ctx, w.cancel = ctx, cancel
 				if r.Pre {
@@ -516,6 +542,15 @@ func (e *eng) apply(mv move) {
 			e.info.ShutdownHit = true
 		}
 		e.down[mv.n] = true
+		// an attempt that is still at the entry of its local wait (it has not taken the token) must fail from now on
+		for _, w := range e.ws {
+			if w.running && !w.cur.unlock && e.provOf(w) == mv.n {
+				if p := e.g.PendingOf(w.idx); p != nil && p.Op == "ctxdone" {
+					w.afterShutdown = true
+					e.info.class("shutdown_while_entering_local_wait")
+				}
+			}
+		}
 		e.info.class("shutdown")
 		e.logf("shutdown provider %d", mv.n)
 		e.mu.Unlock()
